@@ -8,6 +8,8 @@ import (
 	"strings"
 	"unicode/utf8"
 
+	"github.com/reeflective/readline"
+
 	"verif/fw"
 	"verif/sess"
 )
@@ -22,7 +24,18 @@ type c02Case struct {
 	Delivery string `json:"delivery"` // whole | rune | byte | random
 	Cuts     []int  `json:"cuts,omitempty"`
 	Meta     string `json:"meta"`
+	// configuration and application variety (one case in three): variables that document no edit,
+	// a Completer, a SyntaxHighlighter, a right prompt, a history, an earlier call on the same Shell
+	Vars   string `json:"vars,omitempty"`
+	Comp   bool   `json:"comp,omitempty"`
+	Hilite bool   `json:"hilite,omitempty"`
+	Right  bool   `json:"right,omitempty"`
+	Prior  string `json:"prior,omitempty"`
+	HasPri bool   `json:"has_prior,omitempty"`
 }
+
+// variables whose documentation promises no change of the text being typed
+var c02Vars = []string{"autocomplete", "history-autosuggest", "blink-matching-paren", "show-mode-in-prompt", "prompt-transient", "multiline-column", "multiline-column-numbered", "usage-hint-always", "enable-bracketed-paste", "skip-completed-text", "show-all-if-ambiguous", "search-ignore-case", "menu-complete-display-prefix", "completion-ignore-case", "history-preserve-point", "revert-all-at-newline", "isearch-trigger-external", "colored-stats", "mark-symlinked-directories", "bell-style"}
 
 var runeClasses = map[string][]rune{
 	"ascii":     []rune("abcdefghijklmnopqrstuvwxyzABCDEFGHIJKLMNOPQRSTUVWXYZ0123456789 !\"#$%&'()*+,-./:;<=>?@[\\]^_`{|}~"),
@@ -77,6 +90,34 @@ func c02Gen(r *rand.Rand, tier string, idx int) any {
 		c.Inputrc = "set convert-meta off\nset input-meta on\nset output-meta on\n"
 	}
 	c.Inputrc += "set autopairs off\n"
+	if len(c.Text) < 300 && r.Intn(3) == 0 {
+		for _, v := range c02Vars {
+			if r.Intn(3) == 0 {
+				val := pick(r, []string{"on", "off"})
+				if v == "bell-style" {
+					val = pick(r, []string{"none", "audible", "visible"})
+				}
+				c.Vars += "set " + v + " " + val + "\n"
+			}
+		}
+		c.Inputrc += c.Vars
+		c.Comp, c.Hilite, c.Right = r.Intn(2) == 0, r.Intn(3) == 0, r.Intn(4) == 0
+		c.Hist = genHist(r, 5)
+		if r.Intn(3) == 0 {
+			// entries the typed text is a prefix of, or that it extends (autosuggestion material)
+			if rs := []rune(c.Text); len(rs) > 1 {
+				c.Hist = append(c.Hist, string(rs[:len(rs)/2]), c.Text+" and more")
+			}
+		}
+		if r.Intn(3) == 0 {
+			c.HasPri = true
+			pc := []string{"ascii"}
+			if !asciiOnly {
+				pc = append(pc, pick(r, runeClassNames))
+			}
+			c.Prior = genText(r, pc, r.Intn(20))
+		}
+	}
 	if len(c.Text) < 300 && r.Intn(8) == 0 {
 		c.Ahead = true
 		cls := []string{"ascii"}
@@ -238,15 +279,61 @@ func c02Run(env *fw.Env, raw json.RawMessage) fw.Outcome {
 	var c c02Case
 	unmarshal(raw, &c)
 	var o fw.Out
-	s := sess.New(env.T, env.Scratch, c.cfg())
+	cfg := c.cfg()
+	cfg.Setup = func(s *sess.Session) {
+		if c.Comp {
+			// offers extensions of the word under the cursor, as a shell's completer does
+			s.Sh.Completer = func(line []rune, cursor int) readline.Completions {
+				w := string(line[:cursor])
+				if i := strings.LastIndexAny(w, " \t"); i >= 0 {
+					w = w[i+1:]
+				}
+				return readline.CompleteValues(w+"a", w+"bc", w, "other")
+			}
+		}
+		if c.Hilite {
+			s.Sh.SyntaxHighlighter = func(line []rune) string {
+				var sb strings.Builder
+				for i, w := range strings.SplitAfter(string(line), " ") {
+					if i%2 == 0 {
+						sb.WriteString("\x1b[32m" + w + "\x1b[0m")
+					} else {
+						sb.WriteString(w)
+					}
+				}
+				return sb.String()
+			}
+		}
+		if c.Right {
+			s.Sh.Prompt.Right(func() string { return "[r]" })
+		}
+	}
+	s := sess.New(env.T, env.Scratch, cfg)
 	defer s.Close()
 	if c.Ahead {
 		c02TypeAhead(env, &c, s, &o)
 		return o.O
 	}
+	if c.HasPri {
+		// an earlier call on the same Shell: its line is accepted and becomes a history entry
+		if r0 := s.Call(steps(chunk(c.Prior, "whole", nil)...), retExit); !stdFailures(&o, r0, "earlier call typed="+q(c.Prior)) {
+			return o.O
+		} else if !r0.Returned || r0.Err != "" || r0.Line != c.Prior {
+			o.Viol(diffClass(c.Prior, r0.Line)+"|"+c.Mode+"|configured", fmt.Sprintf("mode=%s vars=%q earlier call typed=%s returned=%s err=%q", c.Mode, c.Vars, q(c.Prior), q(r0.Line), r0.Err))
+			return o.O
+		}
+	}
 	plan := steps(chunk(c.Text, c.Delivery, c.Cuts)...)
 	res := s.Call(plan, retExit)
 	o.O.Events = 1
+	if c.Vars != "" || c.Comp || c.Hilite || c.Right || c.HasPri {
+		o.Add("cases_with_configuration_or_application_variety", 1)
+		for _, l := range strings.Split(strings.TrimSpace(c.Vars), "\n") {
+			if l != "" {
+				o.Set("variables_set", strings.TrimPrefix(l, "set "))
+			}
+		}
+	}
 	classes := map[string]bool{}
 	for _, r := range c.Text {
 		classes[classOf(r)] = true
@@ -259,6 +346,11 @@ func c02Run(env *fw.Env, raw json.RawMessage) fw.Outcome {
 	o.Cover(strings.Join(ks, "+") + "|" + c.Mode + "|" + c.Meta + "|" + c.Delivery + fmt.Sprintf("|len%d", utf8.RuneCountInString(c.Text)/10))
 	o.Add("reads_realised", len(res.Reads))
 	ctx := fmt.Sprintf("mode=%s meta=%q delivery=%s typed=%s", c.Mode, c.Meta, c.Delivery, q(clampStr(c.Text, 80)))
+	cfgTag := ""
+	if c.Vars != "" || c.Comp || c.Hilite || c.Right || c.HasPri {
+		cfgTag = "|configured"
+		ctx += fmt.Sprintf(" vars=%q completer=%v highlighter=%v right-prompt=%v earlier-call=%v hist=%q", c.Vars, c.Comp, c.Hilite, c.Right, c.HasPri, c.Hist)
+	}
 	if stdFailures(&o, res, ctx) {
 		switch {
 		case !res.Returned:
@@ -266,7 +358,7 @@ func c02Run(env *fw.Env, raw json.RawMessage) fw.Outcome {
 		case res.Err != "":
 			o.Viol("error-returned:"+res.Err, ctx+" err="+res.Err)
 		case res.Line != c.Text:
-			o.Viol(diffClass(c.Text, res.Line)+"|"+c.Mode, ctx+" returned="+q(clampStr(res.Line, 120)))
+			o.Viol(diffClass(c.Text, res.Line)+"|"+c.Mode+cfgTag, ctx+" returned="+q(clampStr(res.Line, 120)))
 		}
 	}
 	if env.Verbose {
